@@ -360,6 +360,22 @@ func kvCases(g *lib.ChainGen, cls []kvClass, pos int) []kvCase {
 			break
 		}
 	}
+	// the compiled class of a declared class: below 0.14.1 the casm step hashes it (V2) — a compiled class on which that
+	// hash cannot be computed must end in a rejection, not in a panic; from 0.14.1 on it is not read
+	for _, k := range sortedKeys(b.SU.StateDiff.DeclaredV1Classes) {
+		sc, ok := b.Classes[k].(*core.SierraClass)
+		if !ok || sc.Compiled == nil {
+			continue
+		}
+		c := b.Clone()
+		cc := c.Classes[k].(*core.SierraClass).Compiled
+		cc.BytecodeSegmentLengths = core.SegmentLengths{Children: []core.SegmentLengths{{Length: uint64(len(cc.Bytecode))}, {Length: 1}}}
+		add("casm:compiled-class-segment-lengths-exceed-bytecode", c, false)
+		c2 := b.Clone()
+		c2.Classes[k].(*core.SierraClass).Compiled = nil
+		add("casm:compiled-class-missing", c2, false)
+		break
+	}
 	// an L1 handler whose calldata is emptied, every hash recomputed
 	for i, tx := range b.Block.Transactions {
 		l1, ok := tx.(*core.L1HandlerTransaction)
@@ -424,6 +440,37 @@ func probeCasmV2Checked(f lib.Flags, res *lib.Result) (checked bool, ok bool) {
 	return false, false
 }
 
+// probeCompiledGuarded asks the code under test which variant of storeCasmHashMetadataV1 it has: a 0.13.2 genesis block
+// that declares a Sierra class whose compiled class is missing is offered to a fresh node. A panic = /repo as found;
+// "malformed compiled class" = the proposed repair.
+func probeCompiledGuarded(f lib.Flags, res *lib.Result) bool {
+	opt := lib.DefaultGenOptions()
+	opt.NoClasses = true
+	g := lib.NewChainGen(lib.NewRNG(f.Seed).Fork(6198), false, opt)
+	h, c := sierraN(990)
+	d := core.EmptyStateDiff()
+	casm := c.Compiled.Hash(core.HashVersionV1)
+	d.DeclaredV1Classes[h] = &casm
+	b, err := g.Next(&lib.BlockSpec{Version: "0.13.2", NoTxs: true, Diff: &d, Classes: map[felt.Felt]core.ClassDefinition{h: c}})
+	if err != nil {
+		res.Fatalf("store-level probe (compiled class): generator: %v", err)
+		return false
+	}
+	t := b.Clone()
+	t.Classes[h].(*core.SierraClass).Compiled = nil
+	r := offer(openNode(g, false, memory.New()), t)
+	switch {
+	case r.panicked:
+		res.Hit("probe-compiled-class-hash-unguarded")
+		return false
+	case r.err != nil && strings.Contains(r.err.Error(), "malformed compiled class"):
+		res.Hit("probe-compiled-class-hash-guarded")
+		return true
+	}
+	res.Fatalf("store-level probe (compiled class): unexpected outcome: %v", r.err)
+	return false
+}
+
 // runStoreLevelOn: the whole history on one destination backend.
 func runStoreLevelOn(f lib.Flags, res *lib.Result, drv *lib.Driver, dstNew bool, casmV2Checked bool) {
 	backend := "legacy"
@@ -435,7 +482,8 @@ func runStoreLevelOn(f lib.Flags, res *lib.Result, drv *lib.Driver, dstNew bool,
 		res.Fatalf("generator (store-level chain): %v", err)
 		return
 	}
-	k := &kvRun{f: f, res: res, g: g, n: openNode(g, dstNew, memory.New()), drv: drv, backend: backend, name: "kv-chain", casmV2Checked: casmV2Checked}
+	k := &kvRun{f: f, res: res, g: g, n: openNode(g, dstNew, memory.New()), drv: drv, backend: backend, name: "kv-chain", casmV2Checked: casmV2Checked,
+		compiledGuarded: probeCompiledGuarded(f, res)}
 	if _, ok := k.ask("node-reset"); !ok {
 		return
 	}
